@@ -57,6 +57,10 @@ type Disk struct {
 	Roots        []*Root
 	FailMkdirs   int // this many of the next MkdirAll calls fail (ENOSPC: no inode / no block for the directory)
 	FailReadDirs int // this many of the next ReadDir calls fail (EIO: the directory cannot be listed right now)
+	// FailReadDirsFull: this many of the next ReadDir calls of a directory holding at least
+	// FullCount entries fail (EIO); listings of other directories are not affected
+	FailReadDirsFull int
+	FullCount        int
 	Stats        struct {
 		Creates, Writes, Closes, Removes, Mkdirs, Opens, ReadDirs uint64
 		ENOSPC, PartialWrites, CreateErrs, MkdirErrs, ReadDirErrs uint64
@@ -144,6 +148,13 @@ func ReadDir(name string) ([]DirEntry, error) {
 			disk.FailReadDirs--
 			disk.Stats.ReadDirErrs++
 			return nil, &PathError{Op: "open", Path: name, Err: syscall.EIO}
+		}
+		if disk.FailReadDirsFull > 0 && disk.FullCount > 0 {
+			if ents, err := os.ReadDir(name); err == nil && len(ents) >= disk.FullCount {
+				disk.FailReadDirsFull--
+				disk.Stats.ReadDirErrs++
+				return nil, &PathError{Op: "open", Path: name, Err: syscall.EIO}
+			}
 		}
 	}
 	return os.ReadDir(name)
